@@ -207,7 +207,9 @@ CONTEXTS = [('space', ' {v}'), ('paren', '({v})'), ('bracket', '[{v}]'), ('brace
 IMPORT_CONTEXTS = ['from m1 import x{C}1', 'from m1 import(x{C}1)', 'from m1 import (x1, y{C}1)', 'from m1 import x1,y{C}1', 'from m1 import x1 as zz, y{C}1',
                    'import m{C}1', 'import m1, m{C}2', 'import m1 as zz, m{C}2', 'import pk.s{C}ub', 'from pk.s{C}ub import s1', 'from pk import s{C}ub', 'from pk.sub import s{C}1',
                    'from m1 import\tx{C}1', 'from  m1  import  x{C}1', 'from m1 import \\\n    x{C}1', 'from m1 import (\n    x1,\n    y{C}1,\n)', 'from . import m{C}1', 'from .m1 import x{C}1',
-                   'if 1: from m1 import x{C}1', 'import m1; from m2 import x{C}2', 'from m{C}1 import x1', 'from pk.s{C}', 'from pk.{C}', 'import pk.{C}', 'from m1 import {C}']
+                   'if 1: from m1 import x{C}1', 'import m1; from m2 import x{C}2', 'from m{C}1 import x1', 'from pk.s{C}', 'from pk.{C}', 'import pk.{C}', 'from m1 import {C}',
+                   'import x{C}ml.etree.ElementTree', 'import xml.e{C}tree.ElementTree', 'import xml.etree.E{C}lementTree', 'from x{C}ml.etree import ElementTree',
+                   'from xml.e{C}tree.ElementTree import XML', 'import p{C}k.sub', 'import os.p{C}ath as zz', 'import json.d{C}ecoder, os']
 
 
 def context_cases(prog):
@@ -292,6 +294,51 @@ def unit_progs(arg):
     return part
 
 
+def import_reference(text, pos, fn):
+    """what the proposals of a cursor inside an import statement must be, computed from the UNMARKED text:
+    module part -> children of the package named by the components left of the cursor's component;
+    member part (from m import x|) -> children of m plus the attributes of module m"""
+    from supp.assistant import list_packages
+    ln, col = pos
+    line = text.splitlines()[ln - 1]
+    try:
+        tree = ast.parse(text)
+    except SyntaxError:
+        return None
+    P = project_for(fn)
+    for n in ast.walk(tree):
+        if isinstance(n, (ast.Import, ast.ImportFrom)) and n.lineno <= ln <= n.end_lineno:
+            if isinstance(n, ast.ImportFrom):
+                base = '.' * n.level + (n.module or '')
+            for a in n.names:
+                if not hasattr(a, 'end_col_offset'):
+                    return None
+                namelen = len(a.name)
+                if (a.lineno, a.col_offset) <= (ln, col) <= (a.lineno, a.col_offset + namelen):
+                    off = col - a.col_offset
+                    left = a.name[:off]
+                    head = left.rpartition('.')[0]
+                    if isinstance(n, ast.Import):
+                        return sorted(list_packages(P, head, fn))
+                    try:
+                        mod = P.get_nmodule(base, fn)
+                        from supp.evaluator import EvalCtx
+                        attrs = set(mod.attr_list(EvalCtx(P)))
+                    except ImportError:
+                        attrs = set()
+                    return sorted(set(list_packages(P, base, fn)) | attrs)
+            if isinstance(n, ast.ImportFrom) and n.module:
+                # cursor in the module part: find it textually on the first line of the statement
+                seg = line[:col]
+                m = re.search(r'from\s+([.\w]*)$', seg)
+                if m:
+                    head = m.group(1).rpartition('.')[0]
+                    if m.group(1).startswith('.') and not head.strip('.'):
+                        head = m.group(1)[:len(m.group(1)) - len(m.group(1).lstrip('.'))]
+                    return sorted(list_packages(P, head, fn))
+    return None
+
+
 def unit_imports(_):
     part = Part()
     for label, text, pos in import_cases():
@@ -300,6 +347,15 @@ def unit_imports(_):
         r, vs = contract(text, pos, nc.FILE, 'import context ' + label, part)
         for sig, what in vs:
             part.violation(sig + ':import-ctx', what + '\n--- source ---\n' + text, {'kind': 'cursor1', 'text': text, 'pos': list(pos), 'ctx': 'import'})
+        if r is not None:
+            exp = import_reference(text, pos, nc.FILE)
+            if exp is not None:
+                part.count('import_proposal_checks')
+                if list(r[1]) != exp:
+                    d = sorted(set(r[1]) ^ set(exp))
+                    part.violation('import-proposals-differ:import-ctx',
+                                   'import context %s: cursor %s: proposals differ from the children/attributes the unmarked text names by %s (%d vs %d)\n--- source ---\n%s' % (
+                                       label, pos, d[:6], len(r[1]), len(exp), text), {'kind': 'cursor1', 'text': text, 'pos': list(pos), 'ctx': 'import'})
     part.outcome('imports')
     return part
 
@@ -327,6 +383,10 @@ def replay(w):
     p = Part()
     if w['kind'] == 'cursor1':
         r, vs = contract(w['text'], tuple(w['pos']), nc.FILE, 'context ' + w['ctx'], p)
+        if w['ctx'] == 'import' and r is not None:
+            exp = import_reference(w['text'], tuple(w['pos']), nc.FILE)
+            if exp is not None and list(r[1]) != exp:
+                vs = vs + [('import-proposals-differ', 'proposals differ')]
         return [(s + (':import-ctx' if w['ctx'] == 'import' else ':ctx-' + w['ctx']), wh) for s, wh in vs]
     return [(s + w.get('suffix', ''), wh) for s, wh, _ in check_text(w['text'], w['fn'], w['label'], p)]
 
